@@ -5,8 +5,8 @@
    order the locks allow; continuations a thread has not yet executed may be
    overtaken by any other step.  Every theorem quantifies over all runs, and (except where said) over both forms
    of the expire loop ([fixed] = false: the pinned tree; true: the repaired one). *)
-From Coq Require Import List Arith NArith Bool.
-From NngV Require Import Gen.Consts Core.AioModel Core.AioProofs Core.AioFw Core.ExpireScan.
+From Coq Require Import List Arith NArith ZArith Bool.
+From NngV Require Import Gen.Consts Core.AioModel Core.AioProofs Core.AioFw Core.ExpireScan Core.AioDeadline Core.AioDeadlineProofs.
 Import ListNotations.
 
 (* exactly once: in every reachable state each submitted operation has exactly one
@@ -262,3 +262,28 @@ Proof. reflexivity. Qed.
 Example provider_contract_owed_completion :
   exists m, pc_run pc_init [ESubmit; EStartOk] = Some m /\ owed_completion (pc_phase m) = 1.
 Proof. eexists. split; reflexivity. Qed.
+
+(* "the configured duration": which deadline an operation gets (Core/AioDeadline.v: a_timeout, a_expire,
+   a_use_expire and every function of aio.c that touches them; the result is the [zero]/[dl] argument of
+   LStart above).  For the source as it is now (the three places that retire an absolute expiry are read
+   from aio.c on every run) and for every history of nng_aio_set_timeout, nng_aio_set_expire,
+   nni_aio_normalize_timeout, starts (accepted or refused), sleeps and completions: the deadline used is the
+   one the specification names - the relative timeout counted from the start, unless an absolute expiry
+   was set for exactly this operation *)
+Theorem aio_deadline_is_configured : forall os,
+  dl_run C02_DL_SET_CLEARS C02_DL_FINISH_CLEARS C02_DL_START_CONSUMES dl_init os = sp_run sp_init os.
+Proof. exact deadline_is_configured. Qed.
+Print Assumptions aio_deadline_is_configured.
+
+(* a relative timeout d > 0 in force and no absolute expiry pending: the deadline is now + d *)
+Theorem aio_deadline_relative : forall (s : sp) (now : N), s_abs s = None -> (0 < s_timeout s)%Z ->
+  sp_verdict s now = VDeadline (Some (after now (s_timeout s))).
+Proof. exact sp_verdict_rel. Qed.
+Print Assumptions aio_deadline_relative.
+
+(* each of the three is needed: without any one of them some history gets another deadline
+   (the pinned tree lacked the third: finding stale-use-expire) *)
+Theorem aio_deadline_refuted : forall fset ffin fcons, fset && ffin && fcons = false ->
+  exists os, dl_run fset ffin fcons dl_init os <> sp_run sp_init os.
+Proof. exact deadline_refuted. Qed.
+Print Assumptions aio_deadline_refuted.
